@@ -429,13 +429,26 @@ func ruleG2(r *Run) {
 				}
 			}
 			if fv.Name() == "lastFailTime" && strings.HasPrefix(f.Name(), "Store") {
-				acct++
+				// the time of the FAILURE: a fresh time.Now() taken in the deferred section, not a
+				// timestamp captured when the call started
+				fresh := false
+				ast.Inspect(call.Args[1], func(k ast.Node) bool {
+					if c, ok := k.(*ast.CallExpr); ok {
+						if tf := Callee(info, c); tf != nil && FullName(tf) == "time.Now" {
+							fresh = true
+						}
+					}
+					return true
+				})
+				if fresh {
+					acct++
+				}
 			}
 			return true
 		})
 		return true
 	})
-	r.Check(acct == 2, "failure accounting in the deferred section", fd.Pos(), "failCount+1 and lastFailTime=now", "a failed call no longer adds exactly 1 to failCount and records lastFailTime in the deferred section")
+	r.Check(acct == 2, "failure accounting in the deferred section", fd.Pos(), "failCount+1 and lastFailTime=now", "a failed call no longer adds exactly 1 to failCount and records lastFailTime = time.Now() (taken when the failure is observed, in the deferred section): slow failures are dated at their start and the breaker re-closes at once")
 	// InvokeHandler: mock only when err == ErrBreaker
 	ifd, _ := p.DeclOf("rpc/plugins/circuitbreaker", "CircuitBreaker.InvokeHandler")
 	if ifd == nil {
